@@ -2,7 +2,7 @@
    with all defect flags clear; the verified observer judges the implementation's
    own observation (no crash; a stop only through a safe restore). *)
 From F2G Require Export Model.Restore Model.Faults.
-From F2G Require Import Drv.Common gen.Consts Proofs.Restore Proofs.Faults.
+From F2G Require Import Drv.Common gen.Consts.
 From Coq Require Import Lia.
 
 Record case := mkCase {
